@@ -1,9 +1,10 @@
 /-
   C07 — input is either fully understood or loudly rejected, never half-used.
-  Property theorems only (termination / loud failure of the model parser; the token-accounting statement is the
-  soundness direction of the parser proof, see DESIGN.md §6 C07 — in progress).
+  Property theorems only: totality, lexical accounting of every accepted text (for every parser program over the
+  request interface, hence for the module parser), and concrete loud rejections.
 -/
 import WrapModel.Model.Parse
+import WrapModel.Lemmas.Accounting
 
 namespace WrapModel.Props.C07
 open WrapModel WrapModel.Parse
@@ -14,6 +15,33 @@ theorem C07_total (s : String) : (∃ m, parseModule s = .ok m) ∨ (∃ e, pars
   cases h : parseModule s with
   | ok m => exact Or.inl ⟨m, rfl⟩
   | error e => exact Or.inr ⟨e, rfl⟩
+
+/-- **C07, lexical accounting — every parser program.**  Whatever a parser written against the request interface does,
+    when it succeeds it has moved from `s` to `s'` through successful requests only: each step skipped layout (what
+    `skipGap` skips: whitespace and complete comments) and then consumed exactly the text of the token that was asked for
+    (`Consumed`).  No other character is ever passed over. -/
+theorem C07_accounting_any_parser (p : P α) (s : Lex.Src) (a : α) (s' : Lex.Src) (h : p.run s = .ok (a, s')) :
+    Accounted s s' :=
+  run_accounted p s a s' h
+
+/-- **C07, lexical accounting — the entry point.**  If `parseModule text` returns a tree, the whole text — up to its very
+    end — is a sequence of layout gaps and of tokens, each requested by the grammar at its position; the last request is
+    end-of-input, whose `Consumed` clause says that only layout was left. -/
+theorem C07_accepted_text_accounted (text : String) (m : Module) (h : parseModule text = .ok m) :
+    Accounted text.toList [] := by
+  unfold parseModule at h
+  simp only at h
+  split at h
+  · rename_i m' rest hrun
+    have := pmodule_ends _ _ _ _ hrun
+    subst this
+    exact run_accounted _ _ _ _ hrun
+  · cases h
+
+/-- the module parser stops only at the end of the input -/
+theorem C07_module_ends_at_eof (n : Nat) (s : Lex.Src) (m : Module) (s' : Lex.Src) (h : (pmodule n).run s = .ok (m, s')) :
+    s' = [] :=
+  pmodule_ends n s m s' h
 
 def errIs (r : Except Err Module) (e : Err) : Bool :=
   match r with
